@@ -222,10 +222,13 @@ def make_handler(E, buf):
     request = E.plain_obj(tag='request', chunked=1, write=E.opaque('request.write', returns=None))
     sock = E.obj(RING, tag='socket', request=request, buf=buf)
     endpt = E.plain_obj(tag='endpt', callback=E.opaque('endpt.callback', may_raise=True, returns=None))
-    rf = ip.call_function(ip.repo.func('http_server.readFrameFactory'), [sock], {})
-    wf = ip.call_function(ip.repo.func('http_server.writeFrameFactory'), [sock], {})
-    return E.obj(WSH, tag='self', _buffer=sock, _endpt=endpt, closed=E.bool('closed'), hostport=None, query=None, headers=None,
-                 uid=1, _readFrame=rf, _writeFrame=wf)
+    # the handler is built by its REAL constructor (so that whatever the constructor sets up is there), then put into an
+    # arbitrary open/closed state
+    h = ip.call(ClassVal(ip.repo.cls(WSH)), [None, None, None, sock, endpt], {})
+    h.tag = 'self'
+    h.attrs['closed'] = E.bool('closed')
+    E.ctx.inputs['self'] = h
+    return h
 
 
 def delivered(events):
